@@ -165,7 +165,6 @@ func (conn *wsConn) OnPacket(fn func(*protocol.Packet, error)) {
 	// OnPacket can only invoke once
 	conn.onPacketOnce.Do(func() {
 		go func() {
-			defer close(conn.packetCh)
 			defer verifhook.Point("conn.dispatcher:exit", verifhook.ID(conn))
 
 			for {
@@ -198,8 +197,8 @@ func (conn *wsConn) Close(err error) {
 	// Close can only invoke once
 	conn.closeOnce.Do(func() {
 		conn.logger.Errorf("close conn, err: %v", err)
+		// writeCh and packetCh stay open: senders may still be running
 		close(conn.closeCh)
-		close(conn.writeCh)
 
 		_ = conn.conn.Close()
 
@@ -310,9 +309,12 @@ func (conn *wsConn) addPacket(p *protocol.Packet) {
 func (conn *wsConn) writing() {
 	defer verifhook.Point("conn.writer:exit", verifhook.ID(conn))
 	for {
-		b, ok := <-conn.writeCh
-		if !ok {
+		var b []byte
+
+		select {
+		case <-conn.closeCh:
 			return
+		case b = <-conn.writeCh:
 		}
 
 		if conn.closed() {
